@@ -1,4 +1,5 @@
-"""Runs every corpus scenario on the CURRENT tree; deletes the ones that fail there (a corpus entry must be silent on code where the property holds)."""
+"""Runs every corpus scenario on the CURRENT tree and reports the ones that fail there (a corpus entry must be silent on code where the
+property holds).  With --prune the failing entries are deleted - only after making sure the failure is the entry's fault, not a bug in a check."""
 import importlib
 import json
 import os
@@ -9,6 +10,8 @@ VERIF = os.path.dirname(HERE)
 sys.path.insert(0, os.path.join(VERIF, "harness"))
 sys.path.insert(0, os.path.join(VERIF, "harness", "props"))
 from framework import Scenario  # noqa: E402
+
+bad = 0
 
 for pid in sorted(os.listdir(os.path.join(VERIF, "corpus"))):
     check = importlib.import_module(pid).Check()
@@ -22,6 +25,11 @@ for pid in sorted(os.listdir(os.path.join(VERIF, "corpus"))):
         ofs, dfs, _ = check.evaluate([Scenario(list(payload["lines"]), meta)])
         if ofs or dfs:
             what = (ofs + dfs)[0]
-            print(f"{pid}/{fn}: FAILS on the current tree ({what.kind}: {what.message[:120]}) -> removed")
-            os.remove(os.path.join(d, fn))
-print("validated")
+            bad += 1
+            if "--prune" in sys.argv:
+                print(f"{pid}/{fn}: FAILS on the current tree ({what.kind}: {what.message[:120]}) -> removed")
+                os.remove(os.path.join(d, fn))
+            else:
+                print(f"{pid}/{fn}: FAILS on the current tree ({what.kind}: {what.message[:120]})")
+print("validated" if not bad else f"{bad} corpus entries fail on the current tree")
+sys.exit(1 if bad and "--prune" not in sys.argv else 0)
